@@ -83,6 +83,13 @@ def gen(rng, tier):
             gb = "harmonic {\n name wb%d\n colvars wd%d\n centers 0.5\n forceConstant 2.0\n}" % (k, k)
             lines.append("m.script cv config " + esc(gb)); biases = biases + ["wb%d" % k]
             lines.append("S.names cvs=%s biases=%s" % (",".join(cvs), ",".join(biases))); lines.append("m.counts"); expect.append((len(lines), len(cvs), len(biases), "a valid bias block submitted with cv config"))
+        if k % 4 == 2:
+            # directed: a variable with two dependent biases is deleted by script: both go with it (what a configuration that never had them
+            # gives), and the module goes on stepping
+            lines.append("m.script cv colvar z delete")
+            cvs = [c for c in cvs if c != "z"]; biases = [b for b in biases if b not in ("h", "hs")]
+            lines.append("S.names cvs=%s biases=%s" % (",".join(cvs), ",".join(biases))); lines.append("m.counts")
+            expect.append((len(lines), len(cvs), len(biases), "cv colvar z delete (two biases depend on z)"))
         for j in range(ncmd):
             r = rng.rand()
             if r < 0.2 or not stepped:
